@@ -110,6 +110,26 @@ SEEDS = {
     "C20e-devnull-normalised-before-config-load": ("C20", "the special value /dev/null for --output or --InitialDistFile together with a config file that is actually loaded: notify() writes the literal string back after the normalisation ran", ["C13"]),
     "C11e-final-phase-space-follows-save-cadence": ("C11", "a first leg run with --SavePhaseSpace k >= 2 whose number of output steps is not a multiple of k: the final block no longer always writes the phase space, the continuation silently starts from an older record", ["C10", "C14"]),
     "C14e-inherited-sigint-ignore-honoured": ("C14", "the process inherits SIGINT as ignored (started as a background job of a non-interactive shell, or by a parent that ignores it): the handler is not installed, kill -INT does nothing", []),
+    "C01f-flush-below-epsilon-drops-small-cells": ("C01", "data whose cell values are below about 1.2e-7 in magnitude (an un-normalised or weakly filled bunch, far tails): KickMap::apply() zeroes every destination value below float epsilon", ["C02", "C08"]),
+    "C02f-flush-denormals-zeroes-negatives": ("C02", "a field with negative (or subnormal) values in the cells that are read: a 'flush denormals' guard in KickMap::apply() lacks the absolute value and zeroes every negative result", ["C01"]),
+    "C03f-static-slope-first-map-wins": ("C03", "two or more linear RF kick maps with different step counts built in one process: tan(angle) is kept in a function-local static, the first map fixes the slope for all later ones (the executable builds one map per run and never shows it)", ["C19", "C01"]),
+    "C04f-fp-map-gated-by-fptrack": ("C04", "--FPTrack 0 (a tracking option): the Fokker-Planck map of the grid is not built at all, nothing relaxes although FPType is 3 and the damping time positive", ["C12"]),
+    "C06f-impedance-copy-never-refreshed": ("C06", "the impedance object is modified after the first wakePotential() call on a field object: the call keeps a private copy of the lower half of the impedance made on first use", ["C18"]),
+    "C07f-formfactor-completed-above-nyquist": ("C07", "an impedance with non-zero samples above half the length (user table with all harmonics): updateCSR() mirrors the form factor into the upper half, those bins are added to the power while the wake never reads them", ["C18"]),
+    "C08f-static-bunch-stride-first-grid-wins": ("C08", "two or more bunches and kick maps of two different grid sizes applied in one process: the per-bunch data stride is a function-local static initialised by the first map applied (library-level programs only)", ["C01", "C02"]),
+    "C09f-moments-zero-below-epsilon-population": ("C09", "a bunch whose measured population is below float epsilon (un-normalised low-amplitude data, or a share of 5e-8): mean and variance are reported as exactly 0", []),
+    "C10f-final-time-clamped-to-rotations": ("C10", "a --rotations value that is not a whole number of steps (-N 32 -T 0.33): the final record's time stamp is clamped to the rotations option although ceil(N*T) steps were executed", []),
+    "C11f-loaded-grid-integrated-then-normalised": ("C11", "a start from a results file with RenormalizeCharge 0 and a first leg whose charge drifted from 1 (tight phase space, -P 6): the loader now integrates the grid, so the initial renormalisation (a no-op before) rescales the loaded record", []),
+    "C12f-csr-intensity-accumulates-without-cutoff": ("C12", "--CutoffFreq 0 (no cut-off) and two runs with different output cadence: the CSR intensity is only reset in the filtered branch, without cut-off it sums over every record written so far", ["C07", "C10", "C18"]),
+    "C13f-save-skipped-onto-own-config": ("C13", "a run started with --config <output>.cfg of an earlier run, the same output name and an overriding option on the command line: save() refuses to overwrite the file the run was started from, the .cfg next to the new results keeps the old values", []),
+    "C14f-outstep-zero-division-on-abort": ("C14", "--outstep 0 (only the final result is kept) and an interrupt at any point: an extra attribute written on abort divides by outstep, SIGFPE before the file is closed", []),
+    "C05f-static-rf-kick-at-phase-zero": ("C05", "--LinearRF false with a static RF map (no noise, no modulation): the constructors call _calcKick() with the default phase 0 instead of the synchronous phase, the zero crossing of the RF voltage moves to +2.5 sigma", ["C03", "C19"]),
+    "C15f-clamp-order-lets-nan-through": ("C15", "--FPTrack 2 and a tracked particle whose stencil-weighted charge is exactly zero (top or bottom row, empty cells): 0/0, and the re-ordered clamp min(max(y,1),n-1) lets the NaN through", ["C17"]),
+    "C16f-plates-cache-ignores-fmax": ("C16", "two or more ParallelPlatesCSR built in one process with the same sample count, f0 and gap but another f_max: a function-local cache keyed without f_max returns the first table", []),
+    "C18f-cutoff-table-not-reset": ("C18", "updateCSR(fc>0) and later updateCSR(fc<=0) on the same field object: the tabulated high pass is only rebuilt for a positive cut-off (same circumstance as C07c, other mechanism)", ["C07"]),
+    "C19f-record-relative-to-syncphase": ("C19", "sinusoidal RF with V0 > 0 and noise or modulation on: the queue (and so the record) holds the phase relative to the synchronous phase, the applied kick adds it back - record = applied phase minus asin(V0/V_RF)", []),
+    "C17f-tracks-interpolated-past-axis-end": ("C17", "--tracking with an HDF5 output and a tracked particle exactly on the upper grid edge at a written step (file line beyond the grid, or a particle clamped there by a kick): appendTracks interpolates between axis values and reads Ruler::at(n)", ["C15"]),
+    "C20f-unused-legacy-entry-not-erased": ("C20", "a config file using the legacy name RFVoltage or steps AND the current name on the command line with another value: the unused legacy entry stays in the map, notify() writes it after the current one", ["C13"]),
     "C10-": ("C10", "", []),
     "C17-": ("C17", "", []),
 }
